@@ -9,6 +9,7 @@ mod mem;
 mod mkzip;
 mod pkware;
 mod prng;
+mod strict;
 mod streams;
 mod util;
 
@@ -90,6 +91,7 @@ fn main() {
             let mut nontrivial = 0u64;
             let mut classes: BTreeMap<String, u64> = BTreeMap::new();
             let mut failures: Vec<(usize, String, String, String)> = vec![];
+            let mut fail_kinds: BTreeMap<String, u32> = BTreeMap::new();
             for (idx, line) in ops.iter().enumerate() {
                 let resp = st.run(line);
                 writeln!(fo, "{line}").unwrap();
@@ -101,7 +103,12 @@ fn main() {
                 let cls = if cls.len() > 24 { cls[..24].to_string() } else { cls };
                 *classes.entry(format!("resp.{cls}")).or_insert(0) += 1;
                 for f in st.oracle(line, &resp) {
-                    if failures.len() < 50 { failures.push((idx, line.clone(), resp.clone(), f.what)); }
+                    // at most 50 failures per KIND of message (text before the first ':'), 600 in all: a frequent known
+                    // finding (K-D, D14) must not use up the list and push a different failure out of sight
+                    let kind: String = f.what.split(':').next().unwrap_or("").chars().take(40).collect();
+                    let n = fail_kinds.entry(kind).or_insert(0u32);
+                    *n += 1;
+                    if *n <= 50 && failures.len() < 600 { failures.push((idx, line.clone(), resp.clone(), f.what)); }
                 }
             }
             fo.flush().unwrap();
